@@ -300,6 +300,15 @@ pub fn formula_record(text: &str, max_names: usize) -> Option<Value> {
                 Err(msg) => return Some(json!({"k": "outcome", "text": text, "panic": msg, "stage": "eval"})),
                 Ok(b) => b,
             };
+            // the same object evaluated a second time (what -b N does): nothing may be carried over
+            match guarded(|| pf.eval()) {
+                Err(msg) => return Some(json!({"k": "outcome", "text": text, "panic": msg, "stage": "second eval"})),
+                Ok(b2) => {
+                    if b2 != res {
+                        return Some(json!({"k": "outcome", "text": text, "panic": "the second evaluation of the same ParsedFormula differs from the first", "stage": "second eval"}));
+                    }
+                }
+            }
             let mut names: Vec<String> = pf.vars.iter().map(|v| v.name.as_ref().clone()).collect();
             // the record's truth table ranges over the formula's own names (at least one column)
             if names.is_empty() {
